@@ -29,6 +29,7 @@ fn dispatch(op: &str, args: &[Sexp]) -> String {
         "rawproto.import" => crate::props::c14::op_import(args),
         "rawgds.export" => crate::props::c0607::op_export(args),
         "gdsraw.import" => crate::props::c0607::op_import(args),
+        "gdsraw.flat" => crate::props::c0607::op_flat(args),
         "place" => crate::props::c09::op_place(args),
         "place.array" => crate::props::c09::op_array(args),
         "c20.abs2gds" => crate::props::c20::op_abs2gds(args),
